@@ -2,6 +2,7 @@ package props
 
 import (
 	"fmt"
+	"sort"
 	"strings"
 	"sync"
 	"testing"
@@ -151,6 +152,51 @@ func filteredWords() (ok []string, rejected int) {
 	return
 }
 
+// nearKeywords: benign identifiers one edit away from a keyword-table word (digit or
+// letter substituted, character appended / prepended / dropped / doubled). A sloppy
+// look-up (prefix match, lossy hashing, folding digits into letters) turns exactly
+// these into keywords.
+func nearKeywords() []string {
+	seen := map[string]bool{}
+	var out []string
+	add := func(w string) {
+		if !seen[w] && len(w) <= 20 && isBenignWord(w) {
+			seen[w] = true
+			out = append(out, w)
+		}
+	}
+	var keys []string
+	for k := range kwTab() {
+		ok := len(k) >= 2 && len(k) <= 10
+		for i := 0; i < len(k) && ok; i++ {
+			ok = k[i] >= 'A' && k[i] <= 'Z'
+		}
+		if ok {
+			keys = append(keys, k)
+		}
+	}
+	sort.Strings(keys)
+	for _, k := range keys {
+		lk := gen.LowerASCII(k)
+		add(lk + "1")
+		add(lk + "_")
+		add("_" + lk)
+		add("x" + lk)
+		add(lk + "x")
+		add(lk + lk[len(lk)-1:])
+		add(lk[:len(lk)-1])
+		add(lk[1:])
+		if len(lk) <= 6 {
+			for i := 1; i < len(lk); i++ {
+				for d := byte('0'); d <= '9'; d++ {
+					add(lk[:i] + string([]byte{d}) + lk[i+1:])
+				}
+			}
+		}
+	}
+	return out
+}
+
 func wordGen(words []string) *rapid.Generator[string] {
 	return rapid.Custom(func(t *rapid.T) string {
 		for tries := 0; tries < 20; tries++ {
@@ -224,11 +270,21 @@ func TestC14(t *testing.T) {
 		}
 	})
 
+	nk := nearKeywords()
+	c.rec.Extra["near_keyword_words"] = len(nk)
+	tmpl := []string{"W", "a W b", "1 W 1", "1 W 2 W 3", "abc W def W 7", "page W 20", "W 1", "1 W", "W W", "a W 1 W b"}
+	p = c.rec.NewPart("near_keywords_exhaustive", fmt.Sprintf("%d benign identifiers one edit away from a keyword-table word x %d sentence templates", len(nk), len(tmpl)), false, true, "")
+	c.ParRange(p, int64(len(nk)), func(w *Worker, i int64) {
+		for _, t := range tmpl {
+			w.Judge(ev.Case{Kind: "words", In: strings.ReplaceAll(t, "W", nk[i])})
+		}
+	})
+
 	wg := wordGen(words)
 	ng := rapid.StringMatching(`[0-9]{1,12}`)
 	item := rapid.OneOf(wg, wg, ng)
 	p = c.rec.NewPart("rapid_shapes", "rapid: generated words (rejection < 2%, retried inside the generator) and numbers in the four shapes, 1..12 items", true, false, "")
-	c.Rapid(p, 8, pick(25000, 800000), func(rt *rapid.T, sh int) ev.Case {
+	c.Rapid(p, 8, pick(100000, 1000000), func(rt *rapid.T, sh int) ev.Case {
 		switch rapid.IntRange(0, 5).Draw(rt, "shape") {
 		case 0:
 			return ev.Case{Kind: "email", In: wg.Draw(rt, "a") + "@" + wg.Draw(rt, "b") + "." + wg.Draw(rt, "c")}
